@@ -39,6 +39,7 @@ struct Shared {
   SDoc* shared_sdoc = nullptr;
   Pool* pool = nullptr;            // family c
   PoolA* poola = nullptr;          // family c, adaptive chunk policy
+  char* ubuf = nullptr;            // family c, pool constructed over this buffer
 };
 
 static void paint(char* p, size_t n, uint32_t tag) { for (size_t i = 0; i < n; i++) p[i] = (char)(tag * 29 + i * 13); }
@@ -87,6 +88,16 @@ template <class P, class D> static std::string pool_op(P& pool, D& doc, Ctx& c, 
     if (!p) return "null";
     if ((uintptr_t)p & 7) c.error = "Malloc returned a misaligned block";
     Blk b{p, n, (uint32_t)(c.tid * 100000 + c.blocks.size() + 1), (n + 7) & ~(size_t)7};
+    paint(p, n, b.tag); c.blocks.push_back(b);
+    return "m";
+  }
+  if (k == "ReallocNull") {   // Realloc(nullptr, 0, n) is an allocation (the DOM's first growth of an empty container)
+    size_t n = (size_t)op.A(1);
+    if (n == 0) return "z";
+    char* p = (char*)pool.Realloc(nullptr, 0, n);
+    if (!p) return "null";
+    if ((uintptr_t)p & 7) c.error = "Realloc(nullptr) returned a misaligned block";
+    Blk b{p, n, (uint32_t)(c.tid * 100000 + 70000 + c.blocks.size() + 1), (n + 7) & ~(size_t)7};
     paint(p, n, b.tag); c.blocks.push_back(b);
     return "m";
   }
@@ -185,7 +196,12 @@ static void setup(const Plan& p, Shared& sh, std::vector<Ctx>& ctx, bool referen
     }
   }
   bool adaptive = p.K("adaptive", 0) != 0;
-  if (sh.family == 2) { if (adaptive) sh.poola = new PoolA((size_t)p.K("chunk", 256)); else sh.pool = new Pool((size_t)p.K("chunk", 256)); }
+  if (sh.family == 2) {
+    int64_t ub = p.K("user_buffer", 0);   // pool over a caller buffer of that many bytes and no base allocator: the first overflow creates one
+    if (ub > 0) { sh.ubuf = new char[(size_t)ub + 8]; }
+    if (adaptive) sh.poola = ub > 0 ? new PoolA(sh.ubuf, (size_t)ub, (size_t)p.K("chunk", 256)) : new PoolA((size_t)p.K("chunk", 256));
+    else sh.pool = ub > 0 ? new Pool(sh.ubuf, (size_t)ub, (size_t)p.K("chunk", 256)) : new Pool((size_t)p.K("chunk", 256));
+  }
   for (auto& c : ctx) {
     if (sh.family == 0) { c.doc = new Document(); c.sdoc = new SDoc(); }
     if (sh.family == 2) { if (adaptive) c.doca = new DocA(sh.poola); else c.doc = new Document(sh.pool); }
@@ -194,7 +210,7 @@ static void setup(const Plan& p, Shared& sh, std::vector<Ctx>& ctx, bool referen
 }
 static void cleanup(Shared& sh, std::vector<Ctx>& ctx) {
   for (auto& c : ctx) { delete c.doc; delete c.doca; delete c.sdoc; }
-  delete sh.shared_doc; delete sh.shared_sdoc; delete sh.pool; delete sh.poola;
+  delete sh.shared_doc; delete sh.shared_sdoc; delete sh.pool; delete sh.poola; delete[] sh.ubuf;
 }
 
 static void exec_c17(const Plan& p, Outcome& out) {
@@ -283,6 +299,7 @@ static void gen_c17(uint64_t seed, uint64_t run, const std::string& tier, Plan& 
   static const int64_t chunks[] = {64, 256, 1024, 65536};
   p.knobs["chunk"] = chunks[r.below(4)];
   p.knobs["adaptive"] = (int64_t)(mix64(rs ^ 0xada) % 3 == 0);
+  { static const int64_t ubs[] = {0, 0, 0, 64, 96, 200, 1000}; p.knobs["user_buffer"] = ubs[mix64(rs ^ 0xb0f) % 7]; }
   {  // stalled-thread fault (own stream so that the plans of earlier versions keep their ops)
     Rng rf(mix64(rs ^ 0x57a11));
     if (rf.chance(family == 2 ? 1 : 1, family == 2 ? 2 : 5)) {
@@ -306,7 +323,7 @@ static void gen_c17(uint64_t seed, uint64_t run, const std::string& tier, Plan& 
     int64_t t = (int64_t)r.below((uint64_t)nt);
     if (family == 2) {
       unsigned m = (unsigned)r.below(10);
-      if (m < 4) { Op& o = add("Malloc"); o.a = {t, (int64_t)(r.chance(1, 4) ? r.below(300) : r.below(40))}; }
+      if (m < 4) { Op& o = add(r.chance(1, 4) ? "ReallocNull" : "Malloc"); o.a = {t, (int64_t)(r.chance(1, 4) ? r.below(300) : r.below(40))}; }
       else if (m < 7) { Op& o = add("Realloc"); o.a = {t, (int64_t)r.below(16), (int64_t)(r.chance(1, 4) ? r.below(300) : 1 + r.below(60))}; }
       else if (m < 8) { Op& o = add("DocParse"); o.a = {t}; o.s = {text()}; }
       else if (m < 9) { Op& o = add("DocAdd"); o.a = {t, (int64_t)r.range(-5, 5)}; o.s = {model::gen_key(r, go)}; }
